@@ -61,7 +61,7 @@ fn forwardable_is_sendable(batch: bool) {
     let framed = 1 + 32 + 1 + if batch { 2 } else { 0 } + len;
     assert!(fwd == (len > 0 && framed <= MAX_PACKET_SIZE));
     let mut s = RelayedStream::new(MockSink { sent: 0, last_len: 0 }, KeyCache::new(0));
-    let msg = RelayToClientMsg::Datagrams { remote_endpoint_id: vs::key_from([7u8; 32]), datagrams: d };
+    let msg = RelayToClientMsg::Datagrams { remote_endpoint_id: vs::key_from([0u8; 32]), datagrams: d };
     assert!(msg.encoded_len() == framed);
     // the real sink-side checks on the symbolic length (encoder stubbed: it allocates by length)
     let r = Pin::new(&mut s).start_send(msg);
